@@ -25,9 +25,11 @@ type (
 )
 
 // NewCond is sync.NewCond.
+//go:norace
 func NewCond(l Locker) *Cond { return sync.NewCond(l) }
 
 // OnceFunc is sync.OnceFunc.
+//go:norace
 func OnceFunc(f func()) func() { return sync.OnceFunc(f) }
 
 type simState struct {
@@ -37,12 +39,14 @@ type simState struct {
 	waiters []*simrt.Task
 }
 
+//go:norace
 func (st *simState) fresh(s *simrt.Sim) {
 	if st.gen != s.Gen() {
 		*st = simState{gen: s.Gen()}
 	}
 }
 
+//go:norace
 func (st *simState) wakeAll(s *simrt.Sim) {
 	for _, w := range st.waiters {
 		s.MakeReady(w)
@@ -57,6 +61,7 @@ type Mutex struct {
 }
 
 // Lock locks m.
+//go:norace
 func (m *Mutex) Lock() {
 	t := simrt.Current()
 	if t == nil {
@@ -76,6 +81,7 @@ func (m *Mutex) Lock() {
 }
 
 // TryLock tries to lock m.
+//go:norace
 func (m *Mutex) TryLock() bool {
 	t := simrt.Current()
 	if t == nil {
@@ -91,6 +97,7 @@ func (m *Mutex) TryLock() bool {
 }
 
 // Unlock unlocks m.
+//go:norace
 func (m *Mutex) Unlock() {
 	t := simrt.Current()
 	if t == nil {
@@ -114,6 +121,7 @@ type RWMutex struct {
 }
 
 // Lock locks rw for writing.
+//go:norace
 func (rw *RWMutex) Lock() {
 	t := simrt.Current()
 	if t == nil {
@@ -129,10 +137,13 @@ func (rw *RWMutex) Lock() {
 		t.Block("rwmutex wait")
 	}
 	rw.st.writer = true
-	simrt.RaceAcquire(rw)
+	// a writer sees what earlier writers (rsem) and earlier readers (wsem) released
+	simrt.RaceAcquire(&rw.st)
+	simrt.RaceAcquire(&rw.real)
 }
 
 // Unlock unlocks rw for writing.
+//go:norace
 func (rw *RWMutex) Unlock() {
 	t := simrt.Current()
 	if t == nil {
@@ -144,12 +155,14 @@ func (rw *RWMutex) Unlock() {
 	if !rw.st.writer {
 		panic("sync: Unlock of unlocked RWMutex")
 	}
-	simrt.RaceRelease(rw)
+	simrt.RaceRelease(&rw.st)
+	simrt.RaceRelease(&rw.real)
 	rw.st.writer = false
 	rw.st.wakeAll(s)
 }
 
 // RLock locks rw for reading.
+//go:norace
 func (rw *RWMutex) RLock() {
 	t := simrt.Current()
 	if t == nil {
@@ -165,10 +178,12 @@ func (rw *RWMutex) RLock() {
 		t.Block("rwmutex rwait")
 	}
 	rw.st.readers++
-	simrt.RaceAcquire(rw)
+	// a reader sees what earlier writers released; readers are not ordered among themselves
+	simrt.RaceAcquire(&rw.st)
 }
 
 // RUnlock undoes a single RLock.
+//go:norace
 func (rw *RWMutex) RUnlock() {
 	t := simrt.Current()
 	if t == nil {
@@ -180,7 +195,7 @@ func (rw *RWMutex) RUnlock() {
 	if rw.st.readers <= 0 {
 		panic("sync: RUnlock of unlocked RWMutex")
 	}
-	simrt.RaceRelease(rw)
+	simrt.RaceRelease(&rw.real)
 	rw.st.readers--
 	if rw.st.readers == 0 {
 		rw.st.wakeAll(s)
@@ -188,11 +203,14 @@ func (rw *RWMutex) RUnlock() {
 }
 
 // RLocker returns a Locker for the read side.
+//go:norace
 func (rw *RWMutex) RLocker() Locker { return (*rlocker)(rw) }
 
 type rlocker RWMutex
 
+//go:norace
 func (r *rlocker) Lock()   { (*RWMutex)(r).RLock() }
+//go:norace
 func (r *rlocker) Unlock() { (*RWMutex)(r).RUnlock() }
 
 // WaitGroup is sync.WaitGroup.
@@ -203,6 +221,7 @@ type WaitGroup struct {
 	wait []*simrt.Task
 }
 
+//go:norace
 func (wg *WaitGroup) fresh(s *simrt.Sim) {
 	if wg.gen != s.Gen() {
 		wg.gen, wg.n, wg.wait = s.Gen(), 0, nil
@@ -210,6 +229,7 @@ func (wg *WaitGroup) fresh(s *simrt.Sim) {
 }
 
 // Add adds delta to the counter.
+//go:norace
 func (wg *WaitGroup) Add(delta int) {
 	t := simrt.Current()
 	if t == nil {
@@ -234,9 +254,11 @@ func (wg *WaitGroup) Add(delta int) {
 }
 
 // Done decrements the counter.
+//go:norace
 func (wg *WaitGroup) Done() { wg.Add(-1) }
 
 // Go runs f in a new goroutine tracked by the group (Go 1.25 API).
+//go:norace
 func (wg *WaitGroup) Go(f func()) {
 	wg.Add(1)
 	simrt.Go("wg.Go", func() {
@@ -246,6 +268,7 @@ func (wg *WaitGroup) Go(f func()) {
 }
 
 // Wait blocks until the counter is zero.
+//go:norace
 func (wg *WaitGroup) Wait() {
 	t := simrt.Current()
 	if t == nil {
@@ -271,6 +294,7 @@ type Once struct {
 }
 
 // Do calls f if and only if Do is being called for the first time.
+//go:norace
 func (o *Once) Do(f func()) {
 	t := simrt.Current()
 	if t == nil {
